@@ -330,18 +330,29 @@ pub fn gen_hash(kind: &str, rng: &mut Rng, n: usize, thorough: bool) -> Vec<Case
             }
         }
     }
-    // header-field sweep: every header word of a well-formed table set to each boundary value
-    {
-        let is64 = rng.below(2) == 0;
-        let le = rng.below(2) == 0;
+    // header-field sweep: every header word of a well-formed table set to each boundary value — both classes and byte
+    // orders (the bloom word width, hence every shift and modulus by it, depends on the class), and once more with a
+    // saturated bloom filter so that every query gets past the filter to the code behind it
+    for (is64, le) in [(false, false), (false, true), (true, false), (true, true)] {
         let case = if gnu { build_gnu_case(rng, is64, le, 9, 3, 2, 5, 2) } else { build_sysv_case(rng, is64, le, 9, 3) };
         let nwords = if gnu { 4 } else { 2 };
-        for w in 0..nwords {
-            for v in [0u64, 1, 2, 31, 32, 33, 0x7fff_ffff, 0x8000_0000, 0xffff_fffe, 0xffff_ffff] {
-                let mut h = case.hash.clone();
-                put_at(&mut h, w * 4, le, 4, v);
-                for q in [&b"absent"[..], &case.names[case.names.len() - 1][..]] {
-                    out.push((format!("{} {} {} {} {} {} {}", kind, le as u8, cls(is64), hex(&case.symtab), hex(&case.strtab), hex(q), hex(&h)), "wf=0|header-sweep".into()));
+        let mut variants: Vec<Vec<u8>> = vec![case.hash.clone()];
+        if gnu {
+            let mut sat = case.hash.clone();
+            let nbloom = crate::enc::get(&sat[8..12], le, 4) as usize;
+            let wsz = if is64 { 8 } else { 4 };
+            for b in sat.iter_mut().skip(16).take(nbloom * wsz) { *b = 0xff; }
+            variants.push(sat);
+        }
+        for (vi, base) in variants.iter().enumerate() {
+            for w in 0..nwords {
+                for v in [0u64, 1, 2, 31, 32, 33, 38, 63, 64, 65, 95, 96, 0x7fff_ffff, 0x8000_0000, 0xffff_fffe, 0xffff_ffff] {
+                    let mut h = base.clone();
+                    put_at(&mut h, w * 4, le, 4, v);
+                    for q in [&b"absent"[..], &case.names[case.names.len() - 1][..]] {
+                        out.push((format!("{} {} {} {} {} {} {}", kind, le as u8, cls(is64), hex(&case.symtab), hex(&case.strtab), hex(q), hex(&h)),
+                                  if vi == 0 { "wf=0|header-sweep".into() } else { "wf=0|header-sweep|saturated-bloom".into() }));
+                    }
                 }
             }
         }
